@@ -30,6 +30,9 @@ func genC19(c *Ctx) {
 			c.Case(fmt.Sprintf("bls-mix/g=%d", g), fmt.Sprintf("expect ok #bls %d %d", g, r), mixBLS(c, g))
 			c.Case(fmt.Sprintf("ecdsa-mix/g=%d", g), fmt.Sprintf("expect ok #ecdsa %d %d", g, r), mixECDSA(c, g))
 			c.Case(fmt.Sprintf("bls-first-use/g=%d", g), fmt.Sprintf("expect ok #blsfresh %d %d", g, r), mixBLSFirstUse(c, g))
+			if r%3 == 0 {
+				c.Case(fmt.Sprintf("bls-after-rejected/g=%d", g), fmt.Sprintf("expect ok #blsrej %d %d", g, r), mixBLSAfterRejected(c, g, r))
+			}
 		}
 	}
 }
@@ -171,6 +174,104 @@ func mixBLS(c *Ctx, g int) string {
 	}
 	if !bytes.Equal(sks[0].Encode(), snapSk) || !bytes.Equal(msg, snapMsg) || !bytes.Equal(agg, snapAgg) || !bytes.Equal(h.ComputeHash(msg), wantHash) {
 		return "argument-modified"
+	}
+	return "ok"
+}
+
+// mixBLSAfterRejected: a call history, then concurrency. A run of REJECTED calls made alone (lists with a signature of the
+// wrong length, empty lists, lists of unequal lengths, a key of the wrong type), then every goroutine aggregates and
+// batch-verifies its own LONG list (the C calls last milliseconds, so the calls really overlap); every result must be
+// the one the same call gave before the rejected calls were made. Scratch memory that an error path hands back twice,
+// or global state an error path leaves half-updated, is shared by the later calls only when they overlap.
+func mixBLSAfterRejected(c *Ctx, g int, r int) string {
+	h := crypto.NewExpandMsgXOFKMAC128("shared-after-rejected")
+	const base = 12
+	listLen := 150 + 50*(r%3)
+	msg := c.bytes(33)
+	pks := make([]crypto.PublicKey, base)
+	sigs := make([]crypto.Signature, base)
+	for i := 0; i < base; i++ {
+		sk := skFromInt(c.randScalar())
+		pks[i] = sk.PublicKey()
+		sigs[i], _ = sk.Sign(msg, h)
+	}
+	lists := make([][]crypto.Signature, g)
+	keys := make([][]crypto.PublicKey, g)
+	for w := 0; w < g; w++ {
+		lists[w] = make([]crypto.Signature, listLen)
+		keys[w] = make([]crypto.PublicKey, listLen)
+		for j := 0; j < listLen; j++ {
+			k := (j*(w+1) + w + (j*j)%(w+2)) % base
+			lists[w][j], keys[w][j] = sigs[k], pks[k]
+		}
+		// one wrong signature in every list, at a different place: the batch verdicts are then list-specific
+		lists[w][(7*w+3)%listLen] = sigs[(w+5)%base]
+		keys[w][(7*w+3)%listLen] = pks[(w+6)%base]
+	}
+	call := func(w, kind int) string {
+		switch kind {
+		case 0:
+			s, err := crypto.AggregateBLSSignatures(lists[w])
+			return hx(s) + errClass(err)
+		case 1:
+			b, err := crypto.BatchVerifyBLSSignaturesOneMessage(keys[w][:48], lists[w][:48], msg, h)
+			return fmt.Sprint(b, errClass(err))
+		default:
+			k, err := crypto.AggregateBLSPublicKeys(keys[w])
+			if err != nil {
+				return errClass(err)
+			}
+			return hx(k.Encode())
+		}
+	}
+	want := make([][3]string, g)
+	for w := 0; w < g; w++ {
+		for kind := 0; kind < 3; kind++ {
+			want[w][kind] = call(w, kind)
+		}
+	}
+	// the rejected calls, alone
+	short := []crypto.Signature{sigs[0], sigs[1][:47], sigs[2]}
+	long := []crypto.Signature{sigs[0], append(append([]byte{}, sigs[1]...), 0), sigs[2]}
+	ec := ecSk(ecCurves[0], big.NewInt(7)).PublicKey()
+	for i := 0; i < 24; i++ {
+		switch (i + r) % 6 {
+		case 0:
+			_, _ = crypto.AggregateBLSSignatures(short)
+		case 1:
+			_, _ = crypto.AggregateBLSSignatures(long)
+		case 2:
+			_, _ = crypto.BatchVerifyBLSSignaturesOneMessage(pks[:3], short, msg, h)
+		case 3:
+			_, _ = crypto.AggregateBLSSignatures(nil)
+		case 4:
+			_, _ = crypto.BatchVerifyBLSSignaturesOneMessage(pks[:2], sigs[:3], msg, h)
+		default:
+			_, _ = crypto.AggregateBLSPublicKeys([]crypto.PublicKey{pks[0], ec})
+		}
+	}
+	results := make([]string, g)
+	start := make(chan struct{})
+	var wg sync.WaitGroup
+	for w := 0; w < g; w++ {
+		wg.Add(1)
+		go func(w int) {
+			defer wg.Done()
+			<-start
+			for rep := 0; rep < 5; rep++ {
+				kind := []int{0, 0, 1, 0, 2}[(w+rep)%5]
+				if got := call(w, kind); got != want[w][kind] {
+					results[w] = fmt.Sprintf("result-changed worker %d call %d", w, kind)
+				}
+			}
+		}(w)
+	}
+	close(start)
+	wg.Wait()
+	for _, x := range results {
+		if x != "" {
+			return x
+		}
 	}
 	return "ok"
 }
